@@ -188,7 +188,8 @@ class PtnFilterChord(PtnFilter):
             A boolean on filter result
         """
 
-        return data not in self.ar if self.invert_filter else data in self.ar
+        found = bool(np.any(np.all(self.ar == data, axis=1)))
+        return not found if self.invert_filter else found
 
     class Option:
         """The methods available to use in fromChord
